@@ -62,7 +62,7 @@ func c13Spec(tier, scenario string) seqx.Spec {
 	dl := 110 * time.Second
 	if tier == "thorough" {
 		depth = 6
-		dl = 40 * time.Minute
+		dl = 25 * time.Minute
 	}
 	return seqx.Spec{Prop: "C13", Scenario: scenario, MaxDepth: depth, Deadline: dl, New: func() seqx.Instance {
 		c := &c13{W: New(1), tier: tier}
